@@ -1,6 +1,7 @@
 package scen
 
 import (
+	stdtls "crypto/tls"
 	"fmt"
 	"io"
 	"net"
@@ -435,4 +436,60 @@ func firstWord(s string) string {
 		}
 	}
 	return s
+}
+
+// runC33Tickets: a server that completes a genuine handshake but hands out odd session tickets
+// (zero-length, one byte, huge, or garbage); the client stores what it got, and the NEXT connection
+// over the same session cache - to any server - must neither panic nor hang.
+func runC33Tickets(c *Ctx) {
+	ch := c.Ch
+	ids := []IDInfo{{"Chrome_100", tls.HelloChrome_100}, {"Firefox_105", tls.HelloFirefox_105}, {"Chrome_133", tls.HelloChrome_133}, {"Chrome_112_PSK_Shuf", tls.HelloChrome_112_PSK_Shuf}, {"Safari_16_0", tls.HelloSafari_16_0}, {"IOS_14", tls.HelloIOS_14}, {"Golang", tls.HelloGolang}, {"Firefox_65", tls.HelloFirefox_65}}
+	first := ids[ch.Pick(len(ids), "first-id")]
+	second := first
+	if ch.Bool(40, "other-second") {
+		second = ids[ch.Pick(len(ids), "second-id")]
+	}
+	srvMax := []uint16{tls.VersionTLS12, tls.VersionTLS12, tls.VersionTLS13}[ch.Pick(3, "srvmax")]
+	shape := []string{"empty", "empty", "one-byte", "huge", "garbage"}[ch.Pick(5, "ticket-shape")]
+	garbage := make([]byte, ch.Range(2, 300, "ticket-len"))
+	ch.Bytes(garbage, "ticket")
+	cfg := refCfg()
+	cfg.MaxVersion = srvMax
+	cfg.WrapSession = func(refsrv.ConnectionState, *refsrv.SessionState) ([]byte, error) {
+		switch shape {
+		case "empty":
+			return []byte{}, nil
+		case "one-byte":
+			return []byte{7}, nil
+		case "huge":
+			return make([]byte, 65000), nil
+		}
+		return garbage, nil
+	}
+	w := c.NewWorld(simrt.Config{StepCap: 80000})
+	cache := tls.NewLRUClientSessionCache(4)
+	mk := func() *tls.Config {
+		cc := negCfg()
+		cc.ClientSessionCache = cache
+		cc.MinVersion = tls.VersionTLS10
+		return cc
+	}
+	c.R.Class = fmt.Sprintf("odd-tickets/%s->%s max=%x shape=%s", first.Name, second.Name, srvMax, shape)
+	o1 := RunConn(c, w, &ConnSpec{Name: "first", ID: first.ID, CCfg: mk(), Peer: PeerRef, RefCfg: cfg, Deadline: 30 * time.Second, Payload: [][]byte{[]byte("first")}})
+	if o1.CDone {
+		c.R.NonTrivial = true
+		c.Fault("odd-ticket-"+shape, 1)
+	}
+	// second connection: the ordinary repository server (it cannot open such a ticket and falls back)
+	peer2 := ch.Pick(2, "second-peer")
+	scfg := &tls.Config{Certificates: []tls.Certificate{Cert("ecdsa").U, Cert("rsa").U}, MaxVersion: srvMax, MinVersion: tls.VersionTLS10}
+	stdcfg := &stdtls.Config{Certificates: []stdtls.Certificate{Cert("ecdsa").S, Cert("rsa").S}, MaxVersion: srvMax, MinVersion: stdtls.VersionTLS10}
+	o2 := RunConn(c, w, &ConnSpec{Name: "second", ID: second.ID, CCfg: mk(), Peer: peer2, SCfg: scfg, StdCfg: stdcfg, Deadline: 30 * time.Second, Payload: [][]byte{[]byte("second")}})
+	c.Finish(w, true)
+	if c.R.Violation != nil {
+		return
+	}
+	if o1.CDone && o2.CDone {
+		c.Probe("second-connection-after-odd-ticket-completed")
+	}
 }
